@@ -285,6 +285,7 @@ func (v *VC) mergeHeaps(conds []string, heaps []*Heap) *Heap {
 }
 
 type loopMod struct {
+	fieldConds map[string][]string // key -> cells written only as named struct fields (modifies fields)
 	call    bool
 	ghosts  bool
 	ghostSet map[string]bool
@@ -406,14 +407,29 @@ func (v *VC) modOfCall(fn *ssa.Function, c *ssa.CallCommon, root func(ssa.Value)
 		if len(ct.Mods) > 0 {
 			precise := true
 			for _, cl := range ct.Mods {
+				if len(cl.Fields) > 0 {
+					continue
+				}
 				if len(cl.Kinds) == 0 {
 					precise = false
+				}
+				for _, k := range cl.Kinds {
+					if strings.HasPrefix(k, "!") {
+						precise = false
+					}
 				}
 			}
 			if precise {
 				for _, cl := range ct.Mods {
 					for _, k := range cl.Kinds {
 						m.unknown[k] = true
+					}
+					for _, f := range cl.Fields {
+						mt := v.fieldMod(callee, f)
+						if m.fieldConds == nil {
+							m.fieldConds = map[string][]string{}
+						}
+						m.fieldConds[mt.fieldKey] = append(m.fieldConds[mt.fieldKey], mt.fieldCond)
 					}
 				}
 				return
@@ -445,6 +461,12 @@ func (v *VC) modOfCall(fn *ssa.Function, c *ssa.CallCommon, root func(ssa.Value)
 		}
 		for k := range inner.unknown {
 			m.unknown[k] = true
+		}
+		for k, cs := range inner.fieldConds {
+			if m.fieldConds == nil {
+				m.fieldConds = map[string][]string{}
+			}
+			m.fieldConds[k] = append(m.fieldConds[k], cs...)
 		}
 		for k, rs := range inner.known {
 			for r := range rs {
@@ -606,7 +628,7 @@ func (v *VC) genBlock(b *ssa.BasicBlock, initHeap *Heap) {
 			}
 		}, v.rootOf, mod, 0)
 		oldClk, newClk := v.advanceClock(heap)
-		ei := &epochInfo{kind: "havoc", parent: heap.epoch, all: mod.call, ghosts: mod.ghosts, unknown: mod.unknown, known: map[string][]string{}, entryClock: oldClk, newClock: newClk, stable: v.P.db.StableGhosts, ghostSet: mod.ghostSet}
+		ei := &epochInfo{kind: "havoc", parent: heap.epoch, all: mod.call, ghosts: mod.ghosts, unknown: mod.unknown, known: map[string][]string{}, entryClock: oldClk, newClock: newClk, stable: v.P.db.StableGhosts, ghostSet: mod.ghostSet, fieldConds: mod.fieldConds}
 		for k, rs := range mod.known {
 			for r := range rs {
 				ei.known[k] = append(ei.known[k], r)
@@ -705,6 +727,10 @@ func (v *VC) genInstr(in ssa.Instruction, g string, heap *Heap) {
 	switch i := in.(type) {
 	case *ssa.DebugRef:
 		if id, ok := i.Expr.(*ast.Ident); ok {
+			if fv, isVar := i.Object().(*types.Var); isVar && fv.IsField() {
+				// the selector identifier of x.f names a field, not a variable
+				break
+			}
 			if i.IsAddr {
 				v.curAddr[id.Name] = i.X
 				delete(v.curVars, id.Name)
@@ -1040,6 +1066,13 @@ func (v *VC) genUnOp(i *ssa.UnOp, g string, heap *Heap) {
 			v.define(i, v.globalValue(gl))
 			return
 		}
+		if a, ok := i.X.(*ssa.Alloc); ok {
+			if sv := constCellValue(a); sv != nil {
+				// a captured parameter that is assigned exactly once: every load yields that value
+				v.define(i, v.val(sv))
+				return
+			}
+		}
 		v.safety("nil-deref", g, fmt.Sprintf("(not (= %s nilp))", x), i.Pos())
 		if _, isArr := i.Type().Underlying().(*types.Array); isArr {
 			v.unsupp("load of array value")
@@ -1373,6 +1406,9 @@ func (v *VC) genReturn(i *ssa.Return, g string, heap *Heap) {
 		return TV{T: c, Typ: x.Type()}, true
 	}
 	for _, e := range v.contract.Ensures {
+		if e.Assumed {
+			continue
+		}
 		if w, ok := v.contract.Witness[e.Label]; ok && e.Label != "" {
 			if v.ensuresWithWitness(e, w, env, g, i) {
 				continue
@@ -1475,7 +1511,15 @@ func (v *VC) genBinOp(i *ssa.BinOp, g string) {
 			op := map[token.Token]string{token.ADD: "+", token.SUB: "-", token.MUL: "*"}[i.Op]
 			e := fmt.Sprintf("(%s %s %s)", op, x, y)
 			lo, hi, _ := intRange(i.Type())
-			if lo != "0" {
+			if lo != "0" && v.contract != nil && v.contract.Wrapping {
+				if i.Op != token.MUL {
+					// operands are in range, so one correction by 2^w is exact (and far cheaper than mod)
+					span := fmt.Sprintf("(+ (- %s %s) 1)", hi, lo)
+					v.define(i, fmt.Sprintf("(ite (> %s %s) (- %s %s) (ite (< %s %s) (+ %s %s) %s))", e, hi, e, span, e, lo, e, span, e))
+				} else {
+					v.define(i, wrapTo(i.Type(), e))
+				}
+			} else if lo != "0" {
 				v.safety("int-overflow", g, fmt.Sprintf("(and (<= %s %s) (<= %s %s))", lo, e, e, hi), i.Pos())
 				v.define(i, e)
 			} else {
@@ -1608,4 +1652,56 @@ func (v *VC) eqTerm(t types.Type, x, y string) string {
 		return fmt.Sprintf("(= %s %s)", x, y)
 	}
 	return fmt.Sprintf("(= %s %s)", x, y)
+}
+
+// constCellValue: for a heap cell that holds a parameter (the variable is captured by a closure, so
+// SSA spills it), returns the parameter when the cell is written exactly once - by the spill store in
+// the entry block - and every other use, here and inside the capturing closures, only reads it.
+func constCellValue(a *ssa.Alloc) ssa.Value {
+	if a.Block() == nil || a.Block().Index != 0 || a.Referrers() == nil {
+		return nil
+	}
+	var stored ssa.Value
+	var onlyReads func(x ssa.Value, depth int) bool
+	onlyReads = func(x ssa.Value, depth int) bool {
+		if depth > 4 || x.Referrers() == nil {
+			return false
+		}
+		for _, r := range *x.Referrers() {
+			switch i := r.(type) {
+			case *ssa.DebugRef:
+			case *ssa.UnOp:
+				if i.Op != token.MUL {
+					return false
+				}
+			case *ssa.Store:
+				if x != ssa.Value(a) || i.Addr != x || stored != nil || i.Block().Index != 0 {
+					return false
+				}
+				if _, isParam := i.Val.(*ssa.Parameter); !isParam {
+					return false
+				}
+				stored = i.Val
+			case *ssa.MakeClosure:
+				fn, ok := i.Fn.(*ssa.Function)
+				if !ok {
+					return false
+				}
+				for k, b := range i.Bindings {
+					if b == x {
+						if k >= len(fn.FreeVars) || !onlyReads(fn.FreeVars[k], depth+1) {
+							return false
+						}
+					}
+				}
+			default:
+				return false
+			}
+		}
+		return true
+	}
+	if !onlyReads(a, 0) {
+		return nil
+	}
+	return stored
 }
